@@ -87,8 +87,8 @@ register(
 register(
     ID='C03', LEVEL='fault_enumeration',
     ARMS=[(c03, 1.0)],
-    TIERS={'quick': {'runs': 2000, 'wall_cap': 100, 'minimise_budget': 30, 'run_timeout': 180},
-           'thorough': {'runs': 45000, 'wall_cap': 900, 'minimise_budget': 120, 'run_timeout': 180}},
+    TIERS={'quick': {'runs': 2000, 'wall_cap': 100, 'minimise_budget': 30, 'run_timeout': 45},
+           'thorough': {'runs': 45000, 'wall_cap': 900, 'minimise_budget': 120, 'run_timeout': 45}},
     RULE='each run = one seeded history (2-30 operations) on 1-3 pooled parser instances: parse of valid / mutated / '
          'random-Unicode / deep sources, parse interrupted by an asynchronous crash at the k-th line event, '
          'parse+evaluate (eager or lazy), I/O functions over a virtual filesystem/network with a per-resource fault, '
